@@ -41,6 +41,9 @@ COMPONENTS = c = {
 }
 
 
+SENDS = ("send", "send_bad")
+
+
 def gen(rng, tier):
     transport = rng.choices(["popen", "bare", "socket", "proxy"], [55, 10, 15, 20])[0]
     backend = rng.choice(["thread", "thread", "main_thread_only", "gevent"])
@@ -185,6 +188,11 @@ def gen(rng, tier):
         for a in closer_obs:
             main.append(["join", a, 600])
         main.append(["latch_set", "fin"])
+    for a in actors:
+        for i, op in enumerate(a["ops"]):
+            if op[0] == "send" and op[2] == "probe" and rng.random() < 0.3:
+                # a send on a closed channel is refused whatever the item is: also one that cannot be serialised
+                a["ops"][i] = ["send_bad", op[1], "probe"]
     n = 0
     for op in actors[closer_aid]["ops"]:
         if op[0] == "send" and op[2] is None:
@@ -258,7 +266,7 @@ def oracle(case, res, hist):
     T = case["subject"]
     kind = case["kind"]
     key0 = f"{kind};{T if T == 's' else 'exec'};closer={case['closer']}"
-    allow = {("recv", "EOFError"), ("send", "OSError"), ("propagate", "EOFError"), ("waitclose_open", "TimeoutError")}
+    allow = {("recv", "EOFError"), ("send", "OSError"), ("send_bad", "OSError"), ("propagate", "EOFError"), ("waitclose_open", "TimeoutError")}
     V = L.generic_rules(res, hist, allow_exc=allow, key=key0)
     for aid in case.get("closer_obs", ()):
         # woken by the close of its own side: from that moment on the closing side's view applies
@@ -361,9 +369,9 @@ def oracle(case, res, hist):
             rr = r[1]
             if own_close:
                 # after its own close() the observer is a closing side: no sendonly exemption any more
-                if op[0] == "send" and rr[0] == "ok":
+                if op[0] in SENDS and rr[0] == "ok":
                     V.append(v("send-after-own-close", key0, f"actor {aid}: send succeeded after its own close()"))
-                elif op[0] == "send" and rr[0] == "exc" and rr[1] != "OSError":
+                elif op[0] in SENDS and rr[0] == "exc" and rr[1] != "OSError":
                     V.append(v("send-raised-other", f"{key0};{rr[1]}", f"{rr}"))
                 elif op[0] == "isclosed" and rr != ("val", True):
                     V.append(v("isclosed-false-after-own-close", key0, f"actor {aid}: isclosed() -> {rr} after its own close()"))
@@ -373,7 +381,7 @@ def oracle(case, res, hist):
             if op[0] == "close" and rr[0] == "ok":
                 own_close = True
                 continue
-            if op[0] == "send":
+            if op[0] in SENDS:
                 if rr[0] == "ok" and not sendonly:
                     V.append(v("send-after-observed-close", key0,
                                f"actor {aid} observed the close at op {observed_at}, later send succeeded"))
@@ -408,9 +416,9 @@ def oracle(case, res, hist):
             if r is None:
                 continue
             rr = r[1]
-            if op[0] == "send" and rr[0] == "ok":
+            if op[0] in SENDS and rr[0] == "ok":
                 V.append(v("send-after-own-close", key0, "send succeeded on the closing side"))
-            elif op[0] == "send" and rr[1] != "OSError":
+            elif op[0] in SENDS and rr[1] != "OSError":
                 V.append(v("send-raised-other", f"{key0};{rr[1]}", f"{rr}"))
             elif op[0] == "isclosed" and rr != ("val", True):
                 V.append(v("isclosed-false-after-own-close", key0, f"{rr}"))
